@@ -1556,6 +1556,10 @@ def seq_make_ops(r, lib, oc, d, default_hn, nops):
     ops = [mk(r.choice(names)) for _ in range(nops)]
     if r.random() < 0.6:
         ops.insert(r.randrange(len(ops) + 1), mk("precompute"))
+    # the same digest signed deterministically twice, under two different hash functions (the nonce depends on both)
+    o1 = mk("sign_digest_deterministic", "explicit")
+    o2 = dict(o1, hash=r.choice([h for h in HASHES if h != o1["hash"]]))
+    ops += [o1, o2, dict(o1)]
     # every hashing entry point once with an explicit non-default hash and then with the default
     for nm in ("verify", "sign", "sign_deterministic", "sign_digest_deterministic"):
         ops.append(mk(nm, "explicit"))
